@@ -110,7 +110,6 @@ void ListDatatypeValidator::validate( const XMLCh*             const content
                                     ,       ValidationContext* const context
                                     ,       MemoryManager*     const manager)
 {
-    setContent(content);
     BaseRefVectorOf<XMLCh>* tokenVector = XMLString::tokenizeString(content, manager);
     Janitor<BaseRefVectorOf<XMLCh> > janName(tokenVector);
     checkContent(tokenVector, content, context, false, manager);
@@ -121,7 +120,6 @@ void ListDatatypeValidator::checkContent( const XMLCh*             const content
                                          ,      bool                     asBase
                                          ,      MemoryManager*     const manager)
 {
-    setContent(content);
     BaseRefVectorOf<XMLCh>* tokenVector = XMLString::tokenizeString(content, manager);
     Janitor<BaseRefVectorOf<XMLCh> > janName(tokenVector);
     checkContent(tokenVector, content, context, asBase, manager);
@@ -180,7 +178,7 @@ void ListDatatypeValidator::checkContent(       BaseRefVectorOf<XMLCh>*       to
 
         ThrowXMLwithMemMgr3(InvalidDatatypeValueException
                 , XMLExcepts::VALUE_GT_maxLen
-                , getContent()
+                , content
                 , value1
                 , value2
                 , manager);
@@ -196,7 +194,7 @@ void ListDatatypeValidator::checkContent(       BaseRefVectorOf<XMLCh>*       to
 
         ThrowXMLwithMemMgr3(InvalidDatatypeValueException
                 , XMLExcepts::VALUE_LT_minLen
-                , getContent()
+                , content
                 , value1
                 , value2
                 , manager);
@@ -212,7 +210,7 @@ void ListDatatypeValidator::checkContent(       BaseRefVectorOf<XMLCh>*       to
 
         ThrowXMLwithMemMgr3(InvalidDatatypeValueException
                 , XMLExcepts::VALUE_NE_Len
-                , getContent()
+                , content
                 , value1
                 , value2
                 , manager);
@@ -228,7 +226,7 @@ void ListDatatypeValidator::checkContent(       BaseRefVectorOf<XMLCh>*       to
         {
             //optimization: we do a lexical comparision first
             // this may be faster for string and its derived
-            if (XMLString::equals(getEnumeration()->elementAt(i), getContent()))
+            if (XMLString::equals(getEnumeration()->elementAt(i), content))
                 break; // a match found
 
             // do a value space check
@@ -242,7 +240,7 @@ void ListDatatypeValidator::checkContent(       BaseRefVectorOf<XMLCh>*       to
         }
 
         if (i == enumLength)
-            ThrowXMLwithMemMgr1(InvalidDatatypeValueException, XMLExcepts::VALUE_NotIn_Enumeration, getContent(), manager);
+            ThrowXMLwithMemMgr1(InvalidDatatypeValueException, XMLExcepts::VALUE_NotIn_Enumeration, content, manager);
 
     } // enumeration
 
@@ -382,7 +380,6 @@ const XMLCh* ListDatatypeValidator::getCanonicalRepresentation(const XMLCh*     
 {
     MemoryManager* toUse = memMgr? memMgr : getMemoryManager();
     ListDatatypeValidator* temp = (ListDatatypeValidator*) this;
-    temp->setContent(rawData);
     BaseRefVectorOf<XMLCh>* tokenVector = XMLString::tokenizeString(rawData, toUse);
     Janitor<BaseRefVectorOf<XMLCh> > janName(tokenVector);    
 
